@@ -13,7 +13,7 @@ sys.path.insert(0, os.path.dirname(os.path.abspath(__file__)))
 import dlib  # noqa: E402
 
 from traits.api import (  # noqa: E402
-    ComparisonMode, Event, HasTraits, TraitError, TraitType, Undefined, Uninitialized,
+    ComparisonMode, Event, HasTraits, TraitError, TraitType, Undefined, Uninitialized, observe, on_trait_change,
     pop_exception_handler, push_exception_handler)
 from traits.observation import api as obs_api  # noqa: E402
 
@@ -50,13 +50,30 @@ class Incoherent:
     __hash__ = object.__hash__
 
 
+class NoTruth:
+    def __bool__(self):
+        raise ValueError("The truth value of an array with more than one element is ambiguous")
+
+
+class ArrayLike:
+    """== and != answer with an object that has no truth value (like numpy arrays of several elements)."""
+
+    def __eq__(self, o):
+        return NoTruth()
+
+    def __ne__(self, o):
+        return NoTruth()
+
+    __hash__ = object.__hash__
+
+
 class Marker:
     pass
 
 
 # the value pool; index = atom
 POOL = [Eq(1), Eq(1), Eq(2), float("nan"), float("nan"), EqRaises(), None, [1], [1], Marker(), Marker(), Incoherent(),
-        0, 0.0]
+        0, 0.0, ArrayLike()]
 REJ, ALIAS = 9, 10            # pool[REJ] is rejected by the trait, pool[ALIAS] is converted to pool[0]
 MODES = {"none": ComparisonMode.none, "identity": ComparisonMode.identity, "equality": ComparisonMode.equality}
 
@@ -100,6 +117,15 @@ class Pick(TraitType):
         return value
 
 
+class PickOriginal(Pick):
+    """Same validation, but the trait stores the assigned object itself (like Expression / AdaptsTo)."""
+
+    def as_ctrait(self):
+        ctrait = super().as_ctrait()
+        ctrait.setattr_original_value = True
+        return ctrait
+
+
 LOG = []          # (hid, old, new) of the current operation
 SINK = []
 RAISES = set()
@@ -126,11 +152,12 @@ def observe_sink(event):
 _classes = {}
 
 
-def make_class(kind, mode, default, statics):
-    key = (kind, mode, default, tuple(sorted(statics)))
+def make_class(kind, mode, default, statics, orig=False):
+    key = (kind, mode, default, tuple(sorted(statics)), bool(orig))
     if key in _classes:
         return _classes[key]
-    inner = Pick(default_value=POOL[default], comparison_mode=MODES[mode]) if kind == "normal" else Pick()
+    cls_t = PickOriginal if orig else Pick
+    inner = cls_t(default_value=POOL[default], comparison_mode=MODES[mode]) if kind == "normal" else Pick()
     ns = {"x": inner if kind == "normal" else Event(inner)}
     if "any" in statics:
         def _anytrait_changed(self, name, old, new):
@@ -145,6 +172,16 @@ def make_class(kind, mode, default, statics):
         def _x_fired(self, old, new):
             record(2, old, new)
         ns["_x_fired"] = _x_fired
+    if "dotc" in statics:            # @on_trait_change("x") method: TraitChangeNotifyWrapper in its *method listener* form
+        @on_trait_change("x")
+        def _decorated_otc(self, obj, name, old, new):
+            record(3, old, new)
+        ns["_decorated_otc"] = _decorated_otc
+    if "dobs" in statics:            # @observe("x") method, hooked up by _init_trait_observers
+        @observe("x")
+        def _decorated_obs(self, event):
+            record(4, event.old, event.new)
+        ns["_decorated_obs"] = _decorated_obs
     cls = type(HasTraits)("H", (HasTraits,), ns)
     _classes[key] = cls
     return cls
@@ -154,6 +191,17 @@ def make_otc(hid):
     def f(obj, name, old, new):
         record(hid, old, new)
     return f
+
+
+class MethodOwner:
+    def __init__(self, hid):
+        self.hid = hid
+
+    def legacy(self, obj, name, old, new):
+        record(self.hid, old, new)
+
+    def observer(self, event):
+        record(self.hid, event.old, event.new)
 
 
 def make_otcany(hid):
@@ -170,7 +218,7 @@ def make_obs(hid):
 
 
 def run_case(case):
-    a = make_class(case["kind"], case["mode"], case["default"], case["statics"])()
+    a = make_class(case["kind"], case["mode"], case["default"], case["statics"], case.get("orig", False))()
     RAISES.clear()
     RAISES.update(case["raises"])
     keep = []
@@ -182,6 +230,14 @@ def run_case(case):
         elif m == "otcany":
             f = make_otcany(hid)
             a.on_trait_change(f)
+        elif m == "otcm":              # bound method of another object: method-listener path, weak reference to the owner
+            owner = MethodOwner(hid)
+            f = owner
+            a.on_trait_change(owner.legacy, "x")
+        elif m == "obsm":              # bound method for observe: WeakMethod path
+            owner = MethodOwner(hid)
+            f = owner
+            a.observe(owner.observer, "x")
         else:
             f = make_obs(hid)
             a.observe(f, "x")
